@@ -10,7 +10,7 @@ TABLE = [
  ("reply",   "ReplyCalls",  "ReplyMenu",  "Genesis0",     '{"eth"}',        "Mods0",         (1, 4, 1), (1, 6, 2)),
  ("events",  "EventsCalls", "EventsMenu", "Genesis0",     '{"eth"}',        "Mods0",         (1, 3, 1), (1, 4, 2)),
  ("funds",   "FundsCalls",  "FundsMenu",  "GenesisFunds", '{"eth", "btc"}', "Mods0",         (2, 3, 1), (2, 4, 2)),
- ("private", "PrivCalls",   "PrivMenu",   "Genesis0",     '{"eth"}',        "Mods0",         (2, 2, 1), (2, 3, 2)),
+ ("private", "PrivCalls",   "PrivMenu",   "Genesis0",     '{"eth"}',        "Mods0",         (2, 3, 1), (2, 4, 2)),
  ("percode", "PcCalls",     "PcMenu",     "GenesisPC",    '{"eth"}',        "Mods0",         (2, 3, 1), (3, 3, 2)),
  ("registry","RegCalls",    "RegMenu",    "Genesis0",     '{"eth"}',        "Mods0",         (3, 2, 1), (4, 2, 2)),
  ("admin",   "AdmCalls",    "AdmMenu",    "Genesis0",     '{"eth"}',        "Mods0",         (2, 3, 1), (3, 3, 2)),
